@@ -548,6 +548,23 @@ func TestC07_OwnAndMutants(t *testing.T) {
 					}
 				}
 			}
+			// a block of a foreign producer: the worker's block plus a correctly signed Qi transaction that
+			// names one output twice and spends its value twice, header results derived by executing
+			// that body (custom miner). No such block may be built, let alone appended.
+			if mutate && rapid.IntRange(0, 1).Draw(t, "foreignDoubleSpend") == 0 {
+				if dtx := a.DupInputQiTx(t); dtx != nil {
+					_, fb, ferr := n.MineCustom(a.Heads, sim.MineOpts{Order: sim.Zone, Salt: a.Salt + 77, Coinbase: o.Coinbase, Lock: o.Lock, Data: o.Data, TimeDelta: o.TimeDelta}, func(txs []*types.Transaction) []*types.Transaction {
+						return append(txs, dtx)
+					})
+					mutLog = append(mutLog, fmt.Sprintf("foreign block with a Qi transaction naming one output twice: %v", ferr))
+					kinds["foreign/double-spend-in-one-tx"] = true
+					mutantsTried++
+					if ferr == nil && fb != nil {
+						stats.Violation(t, part, "C07/invalid-block-accepted/qi-tx-names-one-output-twice", fmt.Sprintf("a block carrying Qi transaction %x, which spends the same output twice, was executed, sealed and appended (#%d)", dtx.Hash().Bytes()[:6], fb.Zone().NumberU64(sim.Zone)), dump())
+						return
+					}
+				}
+			}
 			// (a) the original must be accepted (also after the mutants)
 			b, err := a.SubmitSealed(ph, o)
 			if err != nil {
